@@ -148,6 +148,12 @@ TWrite ==
                            got |-> [res |-> ev.res, calls |-> ev.calls, sent |-> ev.sent, pending |-> ev.pending, offered |-> ev.offered]])
     /\ UNCHANGED <<run, cmp, consumed, souts, obs, famid, famref, armed, held>>
 
+\* clear_write_buffer: everything pending is discarded, nothing is written
+TClear == /\ Ev("clear")
+          /\ c' = ClearWrite(c)
+          /\ Report({f \in cmp : f = "pending" /\ Rec[l].pending # FALSE}, [exp |-> FALSE, got |-> Rec[l].pending])
+          /\ UNCHANGED <<run, cmp, consumed, souts, obs, famid, famref, armed, held>>
+
 TEnd ==
     /\ Ev("end")
     /\ LET ev == Rec[l]
@@ -174,7 +180,7 @@ TC11 == /\ Ev("c11cmp")
            IN Report(IF same THEN {} ELSE {"c11rel"}, [main |-> m, fresh |-> f])
         /\ UNCHANGED <<c, run, cmp, consumed, souts, obs, famid, famref, armed, held>>
 
-Next == TNew \/ TRead \/ TEnq \/ TWrite \/ TEnd \/ TC11
+Next == TNew \/ TRead \/ TEnq \/ TWrite \/ TClear \/ TEnd \/ TC11
 Spec == Init /\ [][Next]_vars
 
 \* every state of every validated trace satisfies the structural invariant of the machine
